@@ -67,17 +67,22 @@ inductive SRef
   deriving DecidableEq, Repr
 
 inductive TOp
-  | create (k : Kind) (v : Nat)   -- CREATE TABLE r (x int) / CREATE VIEW r AS SELECT v AS x
-  | drop (k : Kind)               -- DROP TABLE|VIEW r
+  | create (k : Kind) (v : Nat) (ifx : Bool)   -- CREATE TABLE|VIEW [IF NOT EXISTS] r (x int) / … AS SELECT v AS x
+  | drop (k : Kind) (ifx : Bool)               -- DROP TABLE|VIEW [IF EXISTS] r
   | insert (v : Nat)              -- INSERT INTO r VALUES (v)
   | select                        -- SELECT x FROM r
   deriving DecidableEq, Repr
 
-inductive SOp | create | drop | use
+inductive SOp
+  | create (ifx : Bool)   -- CREATE SCHEMA [IF NOT EXISTS]
+  | drop (ifx : Bool)     -- DROP SCHEMA [IF EXISTS]
+  | use
   deriving DecidableEq, Repr
 
+def SOp.isDrop : SOp → Bool | .drop _ => true | _ => false
+
 inductive Stmt
-  | createDb (d : Name)
+  | createDb (d : Name) (ifx : Bool)   -- CREATE DATABASE [IF NOT EXISTS] d
   | dropDb (d : Name)
   | useDb (d : Name)
   | useBare (x : Name)            -- `USE x` without DATABASE/SCHEMA
@@ -95,22 +100,28 @@ def Cat.hasSchema (c : Cat) (d s : Name) : Bool := c.hasDb d && (s == mainS || c
 def Obj.at (o : Obj) (d s n : Name) : Bool := o.db == d && o.schema == s && o.name == n
 def Cat.find (c : Cat) (d s n : Name) : Option Obj := c.objs.find? (·.at d s n)
 
-def Cat.createDb (c : Cat) (d : Name) : Res × Cat :=
-  if c.hasDb d then (.err .binder, c) else (.ok, { c with dbs := c.dbs ++ [d] })
+def Cat.createDb (c : Cat) (d : Name) (ifx : Bool) : Res × Cat :=
+  if c.hasDb d then (if ifx then (.ok, c) else (.err .binder, c)) else (.ok, { c with dbs := c.dbs ++ [d] })
 
 /-- what `connect` does when the database / schema it names is missing (conn.py:54-78) -/
 def Cat.ensureDb (c : Cat) (d : Name) : Cat := if c.hasDb d then c else { c with dbs := c.dbs ++ [d] }
 def Cat.ensureSchema (c : Cat) (d s : Name) : Cat :=
   if c.hasSchema d s then c else { c with schemas := c.schemas ++ [(d, s)] }
 
+/-- the catalog after the "create database / schema if needed" rungs of connect -/
+def Cat.connDb (c : Cat) (d : Name) (cd : Bool) : Cat := if cd then c.ensureDb d else c
+def Cat.connSchema (c : Cat) (d s : Name) (cs : Bool) : Cat := if cs && c.hasDb d then c.ensureSchema d s else c
+
 /-- CREATE / DROP (CASCADE) / SET schema on a fully qualified schema -/
 def Cat.applyS (c : Cat) (op : SOp) (d s : Name) : Res × Cat :=
   if !c.hasDb d then (.err .binder, c) else
   match op with
-  | .create =>
-    if c.hasSchema d s then (.err .catalog, c) else (.ok, { c with schemas := c.schemas ++ [(d, s)] })
-  | .drop =>
-    if s == mainS || !c.hasSchema d s then (.err .catalog, c)
+  | .create ifx =>
+    if c.hasSchema d s then (if ifx then (.ok, c) else (.err .catalog, c))
+    else (.ok, { c with schemas := c.schemas ++ [(d, s)] })
+  | .drop ifx =>
+    if s == mainS then (.err .catalog, c)
+    else if !c.hasSchema d s then (if ifx then (.ok, c) else (.err .catalog, c))
     else (.ok, { c with schemas := c.schemas.filter (· != (d, s)),
                         objs := c.objs.filter fun o => !(o.db == d && o.schema == s) })
   | .use => if c.hasSchema d s then (.ok, c) else (.err .catalog, c)
@@ -119,14 +130,16 @@ def Cat.applyS (c : Cat) (op : SOp) (d s : Name) : Res × Cat :=
 def Cat.applyT (c : Cat) (op : TOp) (d s n : Name) : Res × Cat :=
   if !c.hasDb d then (.err .binder, c) else
   match op with
-  | .create k v =>
+  | .create k v ifx =>
     if !c.hasSchema d s then (.err .catalog, c) else
     match c.find d s n with
-    | some _ => (.err .catalog, c)
+    | some o =>
+      -- IF NOT EXISTS: a view "is created" over anything of that name, a table only over a table
+      if ifx && (k = .view || o.kind = .table) then (.ok, c) else (.err .catalog, c)
     | none => (.ok, { c with objs := c.objs ++ [⟨d, s, n, k, if k = .view then [v] else []⟩] })
-  | .drop k =>
+  | .drop k ifx =>
     match c.find d s n with
-    | none => (.err .catalog, c)
+    | none => if ifx then (.ok, c) else (.err .catalog, c)
     | some o => if o.kind = k then (.ok, { c with objs := c.objs.filter fun o => !o.at d s n }) else (.err .catalog, c)
   | .insert v =>
     match c.find d s n with
@@ -176,7 +189,7 @@ def SRef.needDb : SRef → Bool | .q1 _ => true | .q2 .. => false
 
 /-- `checks.is_unqualified_table_expression` on the FIRST table of the statement -/
 def Stmt.needs : Stmt → Bool × Bool
-  | .createDb _ | .dropDb _ | .useDb _ | .selectCtx => (false, false)
+  | .createDb _ _ | .dropDb _ | .useDb _ | .selectCtx => (false, false)
   | .useBare _ => (true, true)
   | .sch .use _ => (false, false)   -- `set_schema` has already turned USE into a SET command without a table
   | .sch _ r => (r.needDb, false)
@@ -205,7 +218,7 @@ def duckResolve (c : Cat) (path : Name × Name) (create : Bool) : TRef → Name 
 
 /-- one statement on one connection, after the guards passed: DuckDB call + `cursor.py:272-335` -/
 def exec (c : Cat) (ss : Session) : Stmt → Res × Cat × Session
-  | .createDb d => let r := c.createDb d; (r.1, r.2, ss)
+  | .createDb d ifx => let r := c.createDb d ifx; (r.1, r.2, ss)
   | .dropDb _ => (.err .raw, c, ss)   -- DuckDB has no DROP DATABASE: ParserException reaches the caller
   | .useDb d =>
     if c.hasDb d then (.ok, c, { ss with database := some d, databaseSet := true, path := (d, mainS) })
@@ -223,13 +236,13 @@ def exec (c : Cat) (ss : Session) : Stmt → Res × Cat × Session
                    databaseSet := if qualified then true else ss.databaseSet,
                    schema := some s, schemaSet := true, path := (d, s) })
       else (a.1, c, ss)
-  | .sch .create r =>
+  | .sch (.create ifx) r =>
     let ds := match r with | .q2 d s => (d, s) | .q1 s => (ss.path.1, s)
-    let r := c.applyS .create ds.1 ds.2
+    let r := c.applyS (.create ifx) ds.1 ds.2
     (r.1, r.2, ss)
-  | .sch .drop r =>
+  | .sch (.drop ifx) r =>
     let ds := match r with | .q2 d s => (d, s) | .q1 s => (ss.path.1, s)
-    let a := c.applyS .drop ds.1 ds.2
+    let a := c.applyS (.drop ifx) ds.1 ds.2
     if a.1 = .ok then
       -- DuckDB itself falls back to `main` when the dropped schema was written with its catalog and is current
       let path1 := match r with | .q2 d s => if ss.path == (d, s) then (d, mainS) else ss.path | .q1 _ => ss.path
@@ -259,17 +272,26 @@ def step (w : World) (i : Nat) (st : Stmt) : Res × World :=
       let r := exec w.cat ss st
       (r.1, { cat := r.2.1, sessions := w.sessions.set i r.2.2 })
 
-/-- `connect(database=d, schema=s)` with the default create_database/create_schema (conn.py:44-101) -/
-def connect (w : World) (d s : Option Name) : World :=
+/-- `connect(database=d, schema=s)` on an instance with `create_database_on_connect = cd`,
+    `create_schema_on_connect = cs` (conn.py:44-107): the named objects are created when allowed, the names are
+    recorded in any case, the `*_set` flags and DuckDB's search path only for what exists afterwards -/
+def newSession (c : Cat) (d s : Option Name) (cd cs : Bool) : Cat × Session :=
   match d with
-  | none => { w with sessions := w.sessions ++ [⟨none, s, false, false, (memoryDb, mainS)⟩] }
+  | none => (c, ⟨none, s, false, false, (memoryDb, mainS)⟩)
   | some d =>
-    let c1 : Cat := w.cat.ensureDb d
+    let c1 : Cat := c.connDb d cd
     match s with
-    | none => { cat := c1, sessions := w.sessions ++ [⟨some d, none, true, false, (d, mainS)⟩] }
+    | none =>
+      (c1, if c1.hasDb d then ⟨some d, none, true, false, (d, mainS)⟩ else ⟨some d, none, false, false, (memoryDb, mainS)⟩)
     | some s =>
-      let c2 : Cat := c1.ensureSchema d s
-      { cat := c2, sessions := w.sessions ++ [⟨some d, some s, true, true, (d, s)⟩] }
+      let c2 : Cat := c1.connSchema d s cs
+      (c2, if c2.hasSchema d s then ⟨some d, some s, true, true, (d, s)⟩
+           else if c2.hasDb d then ⟨some d, some s, true, false, (d, mainS)⟩
+           else ⟨some d, some s, false, false, (memoryDb, mainS)⟩)
+
+def connect (w : World) (d s : Option Name) (cd cs : Bool) : World :=
+  let r := newSession w.cat d s cd cs
+  { cat := r.1, sessions := w.sessions ++ [r.2] }
 
 end Impl
 
@@ -308,7 +330,7 @@ def Ctx.clear (dropped : Option (Name × Name)) (x : Ctx) : Ctx :=
 
 /-- result, new catalog, new context of the issuing connection, schema dropped (if any) -/
 def sexec (c : Cat) (x : Ctx) : Stmt → Res × Cat × Ctx × Option (Name × Name)
-  | .createDb d => let r := c.createDb d; (r.1, r.2, x, none)
+  | .createDb d ifx => let r := c.createDb d ifx; (r.1, r.2, x, none)
   | .dropDb d =>
     -- the catalog of this model cannot forget a database; the specification of DROP DATABASE is only
     -- "not an untranslated error" — every DROP DATABASE is in the finding region
@@ -323,8 +345,8 @@ def sexec (c : Cat) (x : Ctx) : Stmt → Res × Cat × Ctx × Option (Name × Na
       if a.1 = .ok then
         match op with
         | .use => (.ok, a.2, ⟨some d, some s⟩, none)
-        | .drop => (.ok, a.2, x, some (d, s))
-        | .create => (.ok, a.2, x, none)
+        | .drop _ => (.ok, a.2, x, some (d, s))
+        | .create _ => (.ok, a.2, x, none)
       else (a.1, a.2, x, none)
   | .tab op r =>
     match x.resolveT r with
@@ -348,16 +370,18 @@ def step (w : SWorld) (i : Nat) (st : Stmt) : Res × SWorld :=
     let r := sexec w.cat x st
     (r.1, { cat := r.2.1, ctxs := (w.ctxs.set i r.2.2.1).map (Ctx.clear r.2.2.2) })
 
-def connect (w : SWorld) (d s : Option Name) : SWorld :=
+/-- the specification of connect: the same objects are created; the new connection's context is the named
+    database / schema as far as they exist afterwards -/
+def connect (w : SWorld) (d s : Option Name) (cd cs : Bool) : SWorld :=
   match d with
   | none => { w with ctxs := w.ctxs ++ [⟨none, none⟩] }
   | some d =>
-    let c1 : Cat := w.cat.ensureDb d
+    let c1 : Cat := w.cat.connDb d cd
     match s with
-    | none => { cat := c1, ctxs := w.ctxs ++ [⟨some d, none⟩] }
+    | none => { cat := c1, ctxs := w.ctxs ++ [⟨if c1.hasDb d then some d else none, none⟩] }
     | some s =>
-      let c2 : Cat := c1.ensureSchema d s
-      { cat := c2, ctxs := w.ctxs ++ [⟨some d, some s⟩] }
+      let c2 : Cat := c1.connSchema d s cs
+      { cat := c2, ctxs := w.ctxs ++ [⟨if c2.hasDb d then some d else none, if c2.hasSchema d s then some s else none⟩] }
 
 end Spec
 
@@ -382,6 +406,7 @@ def World.coherent (w : World) : Bool := w.sessions.all (·.coherent w.cat)
 inductive Key
   | useDatabaseStaleSchema | dropDatabaseUnsupported | useWithoutKind | schemaDroppedByOtherConnection
   | nonFirstTableUnqualified | unqualifiedFallsBackToMain | currentSchemaMainWhenNone | useSchemaWithoutDatabase
+  | connectNamesMissingContext
   deriving DecidableEq, Repr
 
 def Key.name : Key → String
@@ -393,6 +418,7 @@ def Key.name : Key → String
   | .unqualifiedFallsBackToMain => "C03/unqualified-falls-back-to-main"
   | .currentSchemaMainWhenNone => "C03/current-schema-main-when-none"
   | .useSchemaWithoutDatabase => "C03/use-schema-without-database-2043"
+  | .connectNamesMissingContext => "C03/connect-names-missing-context"
 
 /-- a one-part lookup that DuckDB answers from the current catalog's `main` schema -/
 def fallsBack (c : Cat) (path : Name × Name) : TRef → Bool
@@ -431,22 +457,28 @@ def region (w : World) (i : Nat) (st : Stmt) : Option Key :=
     | some k => some k
     | none =>
       match st with
-      | .sch .drop r =>
+      | .sch (.drop _) r =>
         match ss.abs.resolveS r with
         | .error _ => none
         | .ok (d, s) => if othersHold w i d s then some .schemaDroppedByOtherConnection else none
       | _ => none
 
+/-- a connect whose new connection reports a database / schema it does not have (named but missing and not
+    created: `create_*_on_connect = False`, or a schema without a database) -/
+def connectRegion (w : World) (d s : Option Name) (cd cs : Bool) : Option Key :=
+  let r := Impl.newSession w.cat d s cd cs
+  if r.2.coherent r.1 then none else some .connectNamesMissingContext
+
 /-! ## Histories -/
 
 inductive Op
-  | connect (d s : Option Name)
+  | connect (d s : Option Name) (cd cs : Bool)
   | stmt (i : Nat) (st : Stmt)
   deriving DecidableEq, Repr
 
 def Impl.run (w : World) : List Op → List Res × World
   | [] => ([], w)
-  | .connect d s :: ops => Impl.run (Impl.connect w d s) ops
+  | .connect d s cd cs :: ops => Impl.run (Impl.connect w d s cd cs) ops
   | .stmt i st :: ops =>
     let r := Impl.step w i st
     let rest := Impl.run r.2 ops
@@ -454,17 +486,17 @@ def Impl.run (w : World) : List Op → List Res × World
 
 def Spec.run (w : SWorld) : List Op → List Res × SWorld
   | [] => ([], w)
-  | .connect d s :: ops => Spec.run (Spec.connect w d s) ops
+  | .connect d s cd cs :: ops => Spec.run (Spec.connect w d s cd cs) ops
   | .stmt i st :: ops =>
     let r := Spec.step w i st
     let rest := Spec.run r.2 ops
     (r.1 :: rest.1, rest.2)
 
 /-- the envelope of the partial theorems: no step of the history (judged in the state the code is in at that
-    step) lies in a finding region, and every connect names a database whenever it names a schema -/
+    step) lies in a finding region, and no connect names a database / schema that is missing and not created -/
 def clean (w : World) : List Op → Bool
   | [] => true
-  | .connect d s :: ops => (!s.isSome || d.isSome) && clean (Impl.connect w d s) ops
+  | .connect d s cd cs :: ops => (connectRegion w d s cd cs).isNone && clean (Impl.connect w d s cd cs) ops
   | .stmt i st :: ops => (region w i st).isNone && clean (Impl.step w i st).2 ops
 
 end Fs.Names
